@@ -413,7 +413,7 @@ func check(id, tier string) int {
 	}
 	sem := make(chan struct{}, 16)
 	type po struct {
-		p   part
+		p    part
 		outs []*workerOut
 	}
 	pos := make([]*po, len(m.Parts))
